@@ -61,6 +61,45 @@ def c07(ctx):
     ctx.exhaustive = False
 
 
+PARSE_CATS = EVAL_CATS + ("compile-accepted",)
+
+
+def gen_parse(ctx, mode, family, maxlen, strides, shards=None, cats=PARSE_CATS):
+    stride, stride3 = strides
+    consts = {"Mode": mode, "MaxLen": maxlen, "Stride3": stride3}
+    files = C.generate(ctx, "Gen_Parse", family, consts, shards or (8 if ctx.tier == Q else 16), stride=stride, timeout=3000,
+                       name="Gen_Parse_%s_%d" % (mode, maxlen))
+    C.replay(ctx, files, set(cats))
+    ctx.bounds["%s/%s/%d" % (mode, family, maxlen)] = {"stride": stride, "stride3": stride3}
+
+
+def mc_parse(ctx, maxlen, dev="{}", used1=True, negative=False, name=None):
+    C.model_check(ctx, "MC_Parse", {"Dev": dev, "MaxLen": maxlen, "UseD1": used1}, invariants=["Agree", "NoPanic", "ErrIdx"],
+                  spec="Spec", name=name or "MC_Parse_%d" % maxlen, workers=C.NCPU, timeout=3000, negative=negative)
+
+
+def c04(ctx):
+    ctx.rule = ("strings: every token string over a 28-symbol token alphabet up to length 4 (quick: seeded 1/8 slice of length 4; thorough: "
+                "all, plus a slice of length 5), each rendered with no / single / mixed whitespace, expected to compile iff the ABNF chart "
+                "recogniser derives it; mutants: sentences spelled from evaluator-family ASTs and their single-token deletions, "
+                "transpositions, replacements, insertions; non-trivial: >= 2 tokens; distinct by source text")
+    quick = ctx.tier == Q
+    mc_parse(ctx, 4 if quick else 5)
+    mc_parse(ctx, 4, used1=False, negative=True, name="MC_Parse_neg_D1_outside_ABNF")
+    C.model_check(ctx, "MC_ParseNeg", {"Dev": "{}"}, invariants=["Holds", "VPTree"], spec="Spec", name="MC_ParseNeg_spec", workers=2)
+    for dev in ["ArgsNoComma", "HashNoComma", "LaxSlice", "NudSwallowsBracketError", "VPDot40"] + ([] if quick else ["AnyCallee"]):
+        C.model_check(ctx, "MC_ParseNeg", {"Dev": '{"%s"}' % dev}, invariants=["Holds", "VPTree"], spec="Spec",
+                      name="MC_ParseNeg_" + dev, workers=2, negative=True)
+    gen_parse(ctx, "strings", "C01", 3, (1, 1))
+    gen_parse(ctx, "strings", "C01", 4, (8, 1) if quick else (1, 1))
+    if not quick:
+        gen_parse(ctx, "strings", "C01", 5, (97, 1))
+    gen_parse(ctx, "mutants", "C02", 0, (150, 1) if quick else (7, 1))
+    gen_parse(ctx, "mutants", "C01", 0, (600, 4000000) if quick else (11, 100000))
+    gen_parse(ctx, "mutants", "C09n", 0, (12, 1) if quick else (1, 1))
+    ctx.exhaustive = False
+
+
 def c08(ctx):
     ctx.rule = ("family C08: every (start, stop, step) over {absent} u [-L-2, L+2] u {+-(2^31-1), +-2^31, +-2^62, +-(2^63-1), -2^63} "
                 "(L = 4 quick / 6 thorough) x 3 spellings of the base ([..], a[..], @[..]) x arrays of length 0..L of distinct elements, "
@@ -123,5 +162,5 @@ def c16(ctx):
 
 
 PIPELINES = {
-    "C01": c01, "C02": c02, "C07": c07, "C08": c08, "C09": c09, "C10": c10, "C11": c11, "C16": c16,
+    "C01": c01, "C02": c02, "C04": c04, "C07": c07, "C08": c08, "C09": c09, "C10": c10, "C11": c11, "C16": c16,
 }
